@@ -639,6 +639,27 @@ func c03Coverage(p *Prog, l *Ledger, locks *LockInfo, s *c03Strat) {
 					okUpd = true
 				}
 			}
+			// a defensive copy: the stored container is a map made here, and everything put into it was given its share
+			// first (the same value is the receiver of an UpdateLimit(initial total) in this constructor)
+			if mm, isMake := stored.(*ssa.MakeMap); isMake && !okUpd {
+				nput, nok := 0, 0
+				allInstrs(ctor, func(ins ssa.Instruction) {
+					mu, ok := ins.(*ssa.MapUpdate)
+					if !ok || strip(mu.Map, false) != ssa.Value(mm) {
+						return
+					}
+					nput++
+					for _, u := range updates(ctor) {
+						if strip(u.arg, true) == strip(lv[0], true) && strip(u.recv, false) == strip(mu.Value, false) {
+							nok++
+							return
+						}
+					}
+				})
+				if nput > 0 && nput == nok {
+					okUpd = true
+				}
+			}
 			l.Check(okUpd, "O3", key, p.FuncPos(ctor), "given its share of the initial total in the constructor", fmt.Sprintf("partition source %s is installed without UpdateLimit(initial total): its share is whatever its own constructor set", src.Name))
 		}
 	}
